@@ -73,9 +73,16 @@ def w_real(exe, addr, kind, cls):
         m, t = divmod(i, 2)
         obs = decode(row)
         for mask, (ret, err) in enumerate(obs):
+            if kind == "class6531" and m != 3:
+                continue
             if not t or kind == "literal":
                 exp = (1, 0)                     # syntax-only decision, constant in the mask
             elif kind == "class":
+                ok = bool(mask & mdl.class_bit(cls))
+                exp = (1, 0) if ok else (0, mdl.class_errcode(cls))
+            elif kind == "class6531":
+                if m != 3:
+                    continue           # a non-ASCII spelling: only mode 6531 can classify it
                 ok = bool(mask & mdl.class_bit(cls))
                 exp = (1, 0) if ok else (0, mdl.class_errcode(cls))
             elif kind == "unlisted":
@@ -138,8 +145,12 @@ def main(tier, seed):
         real.append((b"u@" + d, "unlisted", None))
     for d in (b"pppppp", b"com", b"mailhost"):
         real.append((b"u@" + d, "nonfqdn", None))
-    for d in (b"[1.2.3.4]", b"[IPv6:2001:db8::1]", b"[IPv6:::ffff:1.2.3.4]"):
+    for d in (b"[1.2.3.4]", b"[IPv6:2001:db8::1]", b"[IPv6:::ffff:1.2.3.4]", b"[127.0.0.1]", b"[127.255.255.254]", b"[IPv6:::1]",
+              b"[IPv6:::ffff:127.0.0.1]", b"[10.0.0.1]", b"[192.168.1.1]", b"[169.254.1.1]", b"[224.0.0.1]", b"[255.255.255.255]",
+              b"[IPv6:fe80::1]", b"[IPv6:ff02::1]", b"[IPv6:fc00::1]", b"[IPv6:2001:db8:0:0:0:0:0:1]", b"[192.0.2.1]", b"[100.64.0.1]"):
         real.append((b"u@" + d, "literal", None))
+    for d in ("ｅｘａｍｐｌｅ.com", "foo.ｔｅｓｔ", "ｌｏｃａｌｈｏｓｔ", "example。org", "EXAMPLE．NET", "a.in\u00advalid"):
+        real.append((b"u@" + d.encode("utf-8"), "class6531", "SPECIAL"))
     for a in (b"u@-a.com", b"a..b@c.com", b"u@a_b.com", b"@a.com", b"u@[1.2.3]"):
         real.append((a, "syntax-invalid", None))
     for a, kind, cls in real:
